@@ -1,21 +1,24 @@
 #!/bin/sh
-# Applies every seeded change under seeded/*/ to /repo in turn, runs the quick check(s) recorded in its
-# meta.json, expects exit 1 with a VIOLATION line, and reverts.  Finally expects the unchanged tree clean.
-# Not a registered property check; run by hand (takes a while).
+# Applies every seeded change under seeded/*/ in turn to a scratch worktree of /repo's HEAD, runs the quick
+# check(s) recorded in its meta.json against that worktree, expects exit 1 with a VIOLATION line, and reverts.
+# Not a registered property check; run by hand (takes a while).  usage: tools/selftest.sh [name-prefix]
 cd "$(dirname "$0")/.."
+ROOT=$PWD
+WT=$(mktemp -d /tmp/selftest-repo.XXXXXX); rmdir $WT
+git -C /repo worktree add -q $WT HEAD || exit 2
+trap 'git -C /repo worktree remove --force $WT' EXIT
 fail=0
 for d in seeded/*/; do
   n=$(basename $d)
   [ -n "$1" ] && case "$n" in $1*) ;; *) continue;; esac
-  git -C /repo apply "$d/patch.diff" || { echo "SELFTEST $n: patch does not apply"; fail=1; continue; }
+  git -C $WT apply "$ROOT/$d/patch.diff" || { echo "SELFTEST $n: patch does not apply"; fail=1; continue; }
   det=no
   for id in $(python3 -c "import json;print(' '.join(json.load(open('$d/meta.json'))['detecting_checks']))"); do
-    out=$(timeout 1800 bin/check $id --tier quick 2>&1); rc=$?
+    out=$(timeout 1800 bin/check $id --tier quick --repo $WT 2>&1); rc=$?
     if [ $rc -eq 1 ] && echo "$out" | grep -q "^VIOLATION property=$id"; then det="yes($id)"; fi
   done
-  git -C /repo apply -R "$d/patch.diff"
+  git -C $WT apply -R "$ROOT/$d/patch.diff"
   echo "SELFTEST $n: detected=$det"
   [ "$det" = no ] && fail=1
 done
-[ -n "$(git -C /repo status --short)" ] && { echo "SELFTEST: /repo not clean"; fail=1; }
 exit $fail
